@@ -295,6 +295,22 @@ func main() {
 	}
 	sort.Strings(o.LazyInits)
 	o.WallS = time.Since(t0).Seconds()
+	if qprofOn {
+		type kv struct {
+			k string
+			v int
+		}
+		var l []kv
+		for k, v := range qprof {
+			l = append(l, kv{k, v})
+		}
+		sort.Slice(l, func(i, j int) bool { return l[i].v > l[j].v })
+		for i, e := range l {
+			if i < 15 {
+				fmt.Fprintf(os.Stderr, "  qprof %8d %s\n", e.v, e.k)
+			}
+		}
+	}
 	writeOut(*outp, o)
 }
 
